@@ -54,6 +54,10 @@ def cases(draw, tier):
     c["layout"] = draw(st.sampled_from(["contiguous", "contiguous", "transposed_view"]))   # explicit operands as a non-contiguous view
     c["basis2"] = draw(gen.basis_string(n, alphabet))                                    # the same operand tensor is rotated again
     c["zfirst"] = draw(st.booleans())
+    if mode != "positive" and draw(st.integers(0, 3)) == 0:
+        # the state carries ANOTHER dictionary of its own (other conventions for some of the same letters); the explicit unitaries=
+        # argument must take precedence over it for every letter
+        c["own_dict"] = draw(gen.user_unitaries(keys=tuple(sorted(set(alphabet) - {"Z"}))))
     return c
 
 
@@ -130,8 +134,9 @@ def check_one(c):
     out = {}
 
     if mode in ("explicit_psi", "complex", "positive"):
+        own = gen.lib_unitary_dict({"unitaries": dict(c.get("unitaries") or {}, **c["own_dict"])}) if c.get("own_dict") else None
         if mode == "explicit_psi":
-            st_ = ComplexWaveFunction(n, 1, unitary_dict=udict_lib, gpu=False)
+            st_ = ComplexWaveFunction(n, 1, unitary_dict=own or udict_lib, gpu=False)
             psi = build_operand(c)
             kw = {"psi": R.c_to_lib(psi)}
             tol = 1e-10 * float(psi.abs().max() + 1e-300)
@@ -139,12 +144,14 @@ def check_one(c):
             sc = dict(c["state"])
             if mode == "complex" and c.get("unitaries"):
                 sc["unitaries"] = c["unitaries"]
+            if mode == "complex" and own:
+                sc["unitaries"] = dict(c.get("unitaries") or {}, **c["own_dict"])
             st_ = gen.build_state(sc)
             am, ph = gen.ref_nets(sc)
             psi = R.psi_ref(am, ph, V)
             kw = {}
             tol = 1e-7 * float(psi.abs().max())
-        ukw = {"unitaries": udict_lib} if (mode == "positive" or c.get("extras")) else {}      # explicit unitaries= (required for positive states) or the state's own dictionary
+        ukw = {"unitaries": udict_lib} if (mode == "positive" or c.get("extras") or own) else {}      # explicit unitaries= (required for positive states) or the state's own dictionary
         space = st_.generate_hilbert_space()
         ref = U @ psi
         got = R.lib_to_c(UN.rotate_psi(st_, basis, space, **ukw, **kw))
@@ -166,8 +173,10 @@ def check_one(c):
         require(abs(float(p.sum()) - float((psi.abs() ** 2).sum())) <= 1e-9 * float((psi.abs() ** 2).sum()) + 1e-300, "oracle-unitarity", "reference U is not unitary?!")
         nonreal = bool((psi.imag.abs() > 1e-9 * psi.abs().max()).any())
     else:
+        own = gen.lib_unitary_dict({"unitaries": dict(c.get("unitaries") or {}, **c["own_dict"])}) if c.get("own_dict") else None
+        ukw = {"unitaries": udict_lib} if own else {}
         if mode == "explicit_rho":
-            st_ = DensityMatrix(n, 1, 1, unitary_dict=udict_lib, gpu=False)
+            st_ = DensityMatrix(n, 1, 1, unitary_dict=own or udict_lib, gpu=False)
             rho = build_operand(c)
             kw = {"rho": R.c_to_lib(rho)}
             tol = 1e-10 * float(rho.abs().max() + 1e-300)
@@ -175,6 +184,8 @@ def check_one(c):
             sc = dict(c["state"])
             if c.get("unitaries"):
                 sc["unitaries"] = c["unitaries"]
+            if own:
+                sc["unitaries"] = dict(c.get("unitaries") or {}, **c["own_dict"])
             st_ = gen.build_state(sc)
             am, ph = gen.ref_nets(sc)
             rho = R.rho_ref(am, ph, V)
@@ -182,11 +193,11 @@ def check_one(c):
             tol = 1e-6 * float(rho.abs().max())
         space = st_.generate_hilbert_space()
         ref = U @ rho @ U.conj().t()
-        got = R.lib_to_c(UN.rotate_rho(st_, basis, space, **kw))
+        got = R.lib_to_c(UN.rotate_rho(st_, basis, space, **ukw, **kw))
         require(got.shape == (D, D), "rotate_rho:shape", f"rotate_rho shape {tuple(got.shape)}")
         require(bool(torch.all((got - ref).abs() <= tol)), "rotate_rho!=U.rho.Udag", f"rotate_rho differs from U rho U^dagger (basis {basis})",
                 worst=float((got - ref).abs().max()), tol=tol)
-        res = UN.rotate_rho_probs(st_, basis, states.clone(), include_extras=c["extras"], **kw)
+        res = UN.rotate_rho_probs(st_, basis, states.clone(), include_extras=c["extras"], **ukw, **kw)
         if c["extras"]:
             tot, terms, v = res
             s = R.lib_to_c(terms).sum(dim=(0, 1))
@@ -200,7 +211,7 @@ def check_one(c):
                 f"rotate_rho_probs differs from the diagonal of U rho U^dagger (basis {basis}, {'explicit rho' if kw else 'model rho'})",
                 got=tot.tolist(), ref=pref[idx].tolist())
         if mode == "density" or c.get("psd"):
-            full = UN.rotate_rho_probs(st_, basis, V.clone(), **kw).double()
+            full = UN.rotate_rho_probs(st_, basis, V.clone(), **ukw, **kw).double()
             require(bool(torch.all(full >= -1e-9 * rho.abs().max())), "rotated-probs-negative", "rotated Born probabilities of a physical state are negative")
             tr = float(rho.diagonal().real.sum())
             require(abs(float(full.sum()) - tr) <= 1e-6 * tr + tol, "rotated-probs-sum", "rotated probabilities do not sum to the normalisation", s=float(full.sum()), tr=tr)
@@ -209,7 +220,7 @@ def check_one(c):
     cplx_letter = "Y" in letters or any(k in letters for k in (c.get("unitaries") or {}))
     return {"nontrivial": bool(cplx_letter and len(letters) >= 2 and nonreal),
             "labels": ["mode=" + mode] + (["has_Y"] if "Y" in letters else []) + (["all_Z"] if letters == {"Z"} else []) +
-                      (["user_unitary"] if c.get("unitaries") else []) + (["mixed_sites"] if len(letters) >= 2 else [])}
+                      (["user_unitary"] if c.get("unitaries") else []) + (["explicit_dict_overrides_own"] if c.get("own_dict") else []) + (["mixed_sites"] if len(letters) >= 2 else [])}
 
 
 def _fill(k, salt):
